@@ -125,6 +125,8 @@ pub mod verif {
         dt.write(value, buffer)
     }
 
+    pub use crate::pc_reader_simple::verif_hooks::{normalize, postprocess};
+
     /// Unpack all complete values of a non-zero-width record from a byte stream.
     pub fn unpack(
         dt: &crate::RecordDataType,
